@@ -28,6 +28,7 @@ func (c *Ctx) registered(name string) (*ssa.Function, bool) {
 
 func (c *Ctx) groupByFunc() *ssa.Function {
 	// the function that reads Query.groupDefinition and Query.havingDefinition's evaluator: (query, []any) ([]any, error) ranging over its rows and building groups
+	var fallback *ssa.Function
 	for _, f := range c.P.pkgFuncs(modPath) {
 		if f.Parent() != nil || f.Signature.Params().Len() != 2 || f.Signature.Results().Len() != 2 {
 			continue
@@ -35,19 +36,40 @@ func (c *Ctx) groupByFunc() *ssa.Function {
 		if shortType(f.Signature.Params().At(1).Type()) != "[]any" {
 			continue
 		}
-		reads := false
+		reads, iterates := false, false
 		allInstrs(f, func(_ *ssa.BasicBlock, in ssa.Instruction) {
 			if fa, ok := in.(*ssa.FieldAddr); ok && fieldName(fa.X.Type(), fa.Field) == "groupDefinition" {
 				reads = true
+				// group formation walks the grouping keys; a function that only asks whether there are any
+				// (len, nil test) is not it
+				for _, r := range *fa.Referrers() {
+					ld, ok := r.(*ssa.UnOp)
+					if !ok || ld.Referrers() == nil {
+						continue
+					}
+					for _, u := range *ld.Referrers() {
+						switch u.(type) {
+						case *ssa.Range, *ssa.Index, *ssa.IndexAddr, *ssa.Lookup:
+							iterates = true
+						}
+					}
+				}
 			}
 		})
-		if reads {
+		if reads && iterates {
 			c.Anchor("group formation", c.P.funcKey(f)+" "+c.P.Pos(f.Pos()))
 			c.Fn(c.P.funcKey(f))
 			return f
 		}
+		if reads && fallback == nil {
+			fallback = f
+		}
 	}
-	return nil
+	if fallback != nil {
+		c.Anchor("group formation", c.P.funcKey(fallback)+" "+c.P.Pos(fallback.Pos()))
+		c.Fn(c.P.funcKey(fallback))
+	}
+	return fallback
 }
 
 func mapRangeNexts(f *ssa.Function) []*ssa.Next {
@@ -1015,6 +1037,10 @@ func ruleC03Having(c *Ctx) {
 			if e.Kind == "mapupdate" && e.Args[1].Name == `"*"` {
 				// the members: a lookup of the grouped map with the loop's key
 				if e.Args[2].Op == "lookup" && elemOfLoop(e.Args[2].Args[1], lp) {
+					starOK = true
+				}
+				// ... or the member list carried by the loop's own element (a list of {key, rows} records)
+				if e.Args[2].Op == "field" && len(e.Args[2].Args) == 1 && elemOfLoop(e.Args[2].Args[0], lp) {
 					starOK = true
 				}
 			}
